@@ -54,8 +54,9 @@ type Step struct {
 func txStep(ops ...Op) Step { return Step{Kind: "tx", Ops: ops, Signer: -1} }
 
 type Block struct {
-	DtNs  int64  `json:"dt_ns"`
-	Steps []Step `json:"steps"`
+	DtNs   int64  `json:"dt_ns"`
+	Steps  []Step `json:"steps"`
+	Export bool   `json:"export,omitempty"` // after Commit: export genesis, import into a fresh node, compare (C19)
 }
 
 type Expect struct {
